@@ -133,11 +133,13 @@ let rec show_attr a =
       (String.concat "," (List.map (fun n -> string_of_int (int_of_nat n)) exp))
 and show_list l = String.concat "" (List.map (fun k -> " " ^ show_attr k) l)
 
-let cmd_parse ?(brief=false) file fuel =
+let cmd_parse ?(brief=false) ?(obj=false) file fuel =
   let tb = read_tables file in
   let brief0 = brief in
   iter_lines (fun line ->
     let parses = String.split_on_char ';' line in
+    (* obj: LR/ObjParse.v — ONE parser object (backing arrays, stale look-ahead) handed from call to call; NEW = NewParser() *)
+    let o = ref (k_new go_grow_s go_grow_a) in
     let outs = List.map (fun spec ->
       let fail = ref None and types = ref [] in
       let brief = brief0 || List.mem "BRIEF" (words spec) in
@@ -147,7 +149,9 @@ let cmd_parse ?(brief=false) file fuel =
         if w.[0] = 'F' then fail := Some (nat_of_int (int_of_string (String.sub w 1 (String.length w - 1))))
         else if w <> "NEW" then types := int_of_string w :: !types) (words spec);
       let input = List.mapi (fun i t -> { ttype = nat_of_int t; tid = nat_of_int i }) (List.rev !types) in
-      let r = parse tb (sem_node !fail) input (nat_of_int fuel) in
+      if List.mem "NEW" (words spec) then o := k_new go_grow_s go_grow_a;
+      let r = if obj then (let (r, o') = k_parse go_grow_s go_grow_a tb (sem_node !fail) input (nat_of_int fuel) !o in o := o'; r)
+              else parse tb (sem_node !fail) input (nat_of_int fuel) in
       let head = match r.r_out with
         | POk a -> "OK " ^ show_attr a
         | PErr e ->
@@ -475,6 +479,7 @@ let () =
   | _ :: "resolve" :: _ -> cmd_resolve ()
   | _ :: "litconv" :: _ -> cmd_litconv ()
   | _ :: "md" :: _ -> cmd_md ()
+  | _ :: "parseobj" :: file :: fuel :: _ -> cmd_parse ~obj:true file (int_of_string fuel)
   | _ :: "parse" :: file :: fuel :: "brief" :: _ -> cmd_parse ~brief:true file (int_of_string fuel)
   | _ :: "parse" :: file :: fuel :: _ -> cmd_parse file (int_of_string fuel)
   | _ :: "ranges" :: args -> cmd_ranges args
